@@ -321,7 +321,7 @@ fn chunk_positions(spec: &FileSpec, kind: &str) -> Vec<(usize, usize)> {
     v
 }
 
-pub const MODEL_OPS: [&str; 65] = [
+pub const MODEL_OPS: [&str; 67] = [
     "cel_payload_short",
     "cel_payload_long",
     "cel_decl_bigger",
@@ -387,6 +387,8 @@ pub const MODEL_OPS: [&str; 65] = [
     "big_honest_cel",
     "palette_chunk_sequence",
     "tileset_million_tiny_tiles",
+    "palette_hundreds_of_thousands",
+    "tilemap_huge_off_canvas",
 ];
 
 fn fmt_of(spec: &FileSpec) -> Fmt {
@@ -933,6 +935,41 @@ pub fn model_input(base: &Base, op: usize, rng: &mut Rng, deep_groups: usize) ->
                 spec.frames[f.min(nframes - 1)].chunks.push(c.into());
             }
             label = format!("{} {} palette chunks with index ranges {} over {} frame(s)", nchunks, if legacy { "legacy" } else { "new-format" }, desc.join(", "), nframes);
+        }
+        "palette_hundreds_of_thousands" => {
+            // well-formed: one new-format palette chunk listing 300 000 colours (1.8 MB) in an RGBA sprite
+            let n = *rng.pick(&[200_000u32, 300_000]);
+            let mut sp = Sprite::blank(2, 2, Fmt::Rgba, 1);
+            sp.layers.push(LayerM::image("l"));
+            sp.cels.insert((0, 0), CelM { x: 0, y: 0, opacity: 255, content: CelContentM::Image { w: 1, h: 1, pixels: vec![1, 2, 3, 255] }, ud: None });
+            let chunks = vec![ChunkSpec::Palette { total: n, first: 0, entries: (0..n).map(|i| PalChunkEntry { flags_extra: 0, rgba: [i as u8, (i >> 8) as u8, (i >> 16) as u8, 255], name: None }).collect(), reserved: [0; 8] }];
+            let mut r = Rng::new(5);
+            spec = crate::program::compile_with(&sp, &mut r, &Variation::none(), &crate::program::PaletteProgram::Chunks(chunks));
+            label = format!("palette chunk listing {} colours", n);
+        }
+        "tilemap_huge_off_canvas" => {
+            // well-formed: a 1x1 (or 2x3) canvas under a 256x256 map of 65535x4-pixel tiles - 1.7 x 10^10 map pixels, of
+            // which one to six are on the canvas
+            let wide = rng.chance(1, 2);
+            let (cw, ch) = *rng.pick(&[(1u16, 1u16), (2, 3)]);
+            let mut sp = Sprite::blank(cw, ch, Fmt::Rgba, 1);
+            let (tw, th) = if wide { (65_535u16, 4u16) } else { (4, 65_535) };
+            let mut pixels = vec![0u8; 65_535 * 4 * 4];
+            // (flat colour except the tile's first pixels, so that the 2 MB of tile data compress to a few KB)
+            pixels.extend((0..65_535u32 * 4).flat_map(|i| if i < 8 { [i as u8 * 30, 77, 9, 255] } else { [200, 10, 10, 255] }));
+            sp.tilesets.push(TilesetM { id: 0, flags: TS_EMBED | TS_ZERO_EMPTY, count: 2, tw, th, base_index: 1, name: "t".into(), ext: None, pixels });
+            let mut l = LayerM::image("tm");
+            l.kind = LayerKind::Tilemap(0);
+            sp.layers.push(l);
+            let side = 256u16;
+            let (x, y) = *rng.pick(&[(0i16, 0i16), (-32_768, -32_768), (0, -4), (-3, 0)]);
+            let (x, y) = if wide { (x, y.max(-1020) / 4 * 4) } else { (x.max(-1020) / 4 * 4, y) };
+            sp.cels.insert((0, 0), CelM { x, y, opacity: 255, content: CelContentM::Tilemap { w: side, h: side, tiles: vec![1u32; side as usize * side as usize], masks: [0x1fff_ffff, 0x2000_0000, 0x4000_0000, 0x8000_0000] }, ud: None });
+            let mut r = Rng::new(5);
+            let mut v = Variation::none();
+            v.default_storage = Storage::Zlib(6);
+            spec = crate::program::compile(&sp, &mut r, &v);
+            label = format!("{}x{} canvas under a {}x{} map of {}x{} tiles at ({},{})", cw, ch, side, side, tw, th, x, y);
         }
         "tileset_million_tiny_tiles" => {
             // well-formed and honest: millions of 1x1 / 2x2 / 3x3 tiles (a few KB compressed). Whatever is kept per
